@@ -2,6 +2,7 @@ package streams
 
 import (
 	"github.com/lmorg/murex/lang/types"
+	"github.com/lmorg/murex/utils/verifhook"
 )
 
 // Shamelessly stolen from https://blog.golang.org/go-slices-usage-and-internals
@@ -56,6 +57,7 @@ func (stdin *Stdin) GetDataType() (dt string) {
 		default:
 		}
 
+		verifhook.Yield(verifhook.SiteStreamGetDataType)
 		stdin.mutex.Lock()
 		//stdin.dtLock.Lock()
 		dt = stdin.dataType
